@@ -13,7 +13,15 @@ import (
 
 var checks = map[string]func(*mon.Ctx){
 	"C01": mon.CheckC01,
+	"C02": mon.CheckC02,
+	"C07": mon.CheckC07,
+	"C09": mon.CheckC09,
+	"C16": mon.CheckC16,
+	"C03": mon.CheckC03,
+	"C04": mon.CheckC04,
+	"C05": mon.CheckC05,
 	"C06": mon.CheckC06,
+	"C11": mon.CheckC11,
 	"C08": mon.CheckC08,
 	"C13": mon.CheckC13,
 }
